@@ -535,7 +535,7 @@ func genCodecCase(t *rapid.T) CodecCase {
 // in any chunking give a frame or an error within the allocation bound.
 func TestCodec(t *testing.T) {
 	runtime.GC()
-	vkit.Check(t, 40000, 600000, func(t *rapid.T) {
+	vkit.Check(t, 40000, 400000, func(t *rapid.T) {
 		checkCodec(t, genCodecCase(t))
 	})
 }
